@@ -1181,7 +1181,9 @@ class VacancyMediated(object):
         :return statelist: list of PairStates for the solute-vacancy interactions
         """
         if 0 == getattr(self, 'Nthermo', 0): raise ValueError('Need to set thermodynamic range first')
-        return [self.thermo.states[s[0]] for s in self.thermo.stars]
+        # hand out copies: the states (and their R, dx arrays) are the calculator's own
+        return [stars.PairState(i=PS.i, j=PS.j, R=PS.R.copy(), dx=PS.dx.copy())
+                for PS in (self.thermo.states[s[0]] for s in self.thermo.stars)]
 
     def omegalist(self, fivefreqindex=1):
         """
@@ -1196,8 +1198,10 @@ class VacancyMediated(object):
         om, jt = {1: (self.om1_jn, self.om1_jt),
                   2: (self.om2_jn, self.om2_jt)}.get(fivefreqindex, (None, None))
         if om is None: raise ValueError('Five frequency index should be 1 or 2')
-        return [(self.kinetic.states[jlist[0][0][0]], self.kinetic.states[jlist[0][0][1]]) for jlist in om], \
-               jt.copy()
+        # hand out copies: the states (and their R, dx arrays) are the calculator's own
+        return [tuple(stars.PairState(i=PS.i, j=PS.j, R=PS.R.copy(), dx=PS.dx.copy())
+                      for PS in (self.kinetic.states[jlist[0][0][0]], self.kinetic.states[jlist[0][0][1]]))
+                for jlist in om], jt.copy()
 
     def maketracerpreene(self, preT0, eneT0, **ignoredextraarguments):
         """
